@@ -8,11 +8,14 @@ package c11
 import (
 	"bytes"
 	"fmt"
+	"reflect"
 	"runtime"
 	"testing"
 	"time"
 
+	"github.com/lianxiangcloud/linkchain/libs/p2p"
 	"github.com/lianxiangcloud/linkchain/libs/ser"
+	"github.com/lianxiangcloud/linkchain/types"
 	"pgregory.net/rapid"
 
 	"verifharness/vstat"
@@ -88,5 +91,114 @@ func TestEncodeHistoryIndependence(t *testing.T) {
 				return
 			}
 		}
+	})
+}
+
+// The codec is one process-wide object with lazily filled caches shared by its binary and its JSON half: what a type's
+// encoding looks like must not depend on which half met the type first.  The entry points with a type prefix are also
+// used for types that were never registered (the p2p NodeInfo and key exchange of every new connection): there the
+// prefix is empty, before and after the same value went through JSON (RPC status and dumps do that in a running node).
+// Generated: the type, the value, and a history of other codec uses between two encodings of the value.
+
+type histHolder struct {
+	Name string
+	Vote *types.Vote
+	Info p2p.NodeInfo
+	ID   types.BlockID
+}
+
+var histTypes = []reflect.Type{
+	reflect.TypeOf(p2p.NodeInfo{}), reflect.TypeOf(types.Vote{}), reflect.TypeOf(types.BlockID{}), reflect.TypeOf(types.Proposal{}),
+	reflect.TypeOf(types.PartSetHeader{}), reflect.TypeOf(histSmall{}), reflect.TypeOf([32]byte{}), reflect.TypeOf(uint64(0)), reflect.TypeOf(""),
+}
+
+func TestWithTypeHistoryIndependence(t *testing.T) {
+	rapid.Check(t, func(t *rapid.T) {
+		vstat.Eval()
+		typ := rapid.SampledFrom(histTypes).Draw(t, "type")
+		pv := reflect.New(typ)
+		newValgen(t, 12).fill(pv.Elem())
+		if typ == reflect.TypeOf(histSmall{}) {
+			hs := pv.Interface().(*histSmall)
+			hs.When = time.Unix(int64(rapid.IntRange(0, 2000000000).Draw(t, "ts")), 0).UTC()
+		}
+		byPtr := rapid.Bool().Draw(t, "byptr")
+		val := func() interface{} {
+			if byPtr {
+				return pv.Interface()
+			}
+			return pv.Elem().Interface()
+		}
+		encAll := func() (b, w []byte, err error) {
+			if b, err = ser.EncodeToBytesWithType(val()); err != nil {
+				return
+			}
+			var buf bytes.Buffer
+			if _, err = ser.EncodeWriterWithType(&buf, val()); err != nil {
+				return
+			}
+			return b, buf.Bytes(), nil
+		}
+		roundTrip := func(b []byte, when string) bool {
+			out := reflect.New(typ)
+			if err := ser.DecodeBytesWithType(b, out.Interface()); err != nil {
+				vstat.Violation(t, P, "withtype:unregistered-type-does-not-round-trip", "%s: the prefixed encoding %x of a %v does not decode: %v", when, b[:min(len(b), 64)], typ, err)
+				return false
+			}
+			if d := equalNorm(pv.Elem(), out.Elem(), typ.String()); d != "" {
+				vstat.Violation(t, P, "withtype:unregistered-type-does-not-round-trip", "%s: the prefixed encoding of a %v decodes to another value: %s", when, typ, d)
+				return false
+			}
+			return true
+		}
+		b0, w0, err := encAll()
+		if err != nil {
+			t.Skip("value not encodable: " + err.Error())
+		}
+		plain, _ := ser.EncodeToBytes(val())
+		if !bytes.Equal(b0, w0) {
+			vstat.Violation(t, P, "withtype:entry-points-differ", "EncodeToBytesWithType gives %x, EncodeWriterWithType %x for the same %v", b0[:min(len(b0), 64)], w0[:min(len(w0), 64)], typ)
+			return
+		}
+		if !roundTrip(b0, "first encoding") {
+			return
+		}
+		// the history in between
+		var hist []string
+		nops := rapid.IntRange(1, 5).Draw(t, "nops")
+		for i := 0; i < nops; i++ {
+			op := rapid.SampledFrom([]string{"json-marshal", "json-marshal", "json-marshal-holder", "json-roundtrip", "json-marshal-ptr", "plain-encode", "withtype-other"}).Draw(t, "op")
+			hist = append(hist, op)
+			switch op {
+			case "json-marshal":
+				ser.MarshalJSON(pv.Elem().Interface())
+			case "json-marshal-ptr":
+				ser.MarshalJSON(pv.Interface())
+			case "json-marshal-holder":
+				h := histHolder{Name: "x", Vote: &types.Vote{Height: 3}, Info: p2p.NodeInfo{Moniker: "m"}}
+				ser.MarshalJSON(h)
+				ser.MarshalJSONIndent(&h, "", " ")
+			case "json-roundtrip":
+				if bz, err := ser.MarshalJSON(pv.Elem().Interface()); err == nil {
+					ser.UnmarshalJSON(bz, reflect.New(typ).Interface())
+				}
+			case "plain-encode":
+				ser.EncodeToBytes(val())
+			case "withtype-other":
+				ser.EncodeToBytesWithType(&histInner{A: 1})
+			}
+		}
+		vstat.Label("history_type_" + typ.String())
+		vstat.NonTrivial(fmt.Sprintf("%v|%v|%x", typ, hist, b0[:min(len(b0), 24)]))
+		b1, w1, err := encAll()
+		if err != nil {
+			vstat.Violation(t, P, "withtype:encoding-depends-on-codec-history", "after %v the prefixed encoding of an unchanged %v fails: %v", hist, typ, err)
+			return
+		}
+		if !bytes.Equal(b1, b0) || !bytes.Equal(w1, w0) {
+			vstat.Violation(t, P, "withtype:encoding-depends-on-codec-history", "the same %v encodes (with type prefix) to %x before and to %x after %v (plain encoding %x)", typ, b0[:min(len(b0), 48)], b1[:min(len(b1), 48)], hist, plain[:min(len(plain), 48)])
+			return
+		}
+		roundTrip(b1, fmt.Sprintf("after %v", hist))
 	})
 }
